@@ -1,381 +1,53 @@
-import QmiModel.Model.Pipeline
+import QmiModel.Lemmas.C03Pipe
 import QmiModel.Gen.RpcShape
 /-!
 # C03 — calls on one object run one at a time, in the order they were issued
 
-Property theorems only.  Every statement quantifies over **all reachable states** of the interleaving system
-`QmiModel.Pipeline.step` (`Reach T s`: any number of caller threads, contexts, objects, requests, any
-interleaving of callers, event loops and workers) and over every placement `T` of threads and objects on contexts.
-Nothing is bounded.
+Property theorems only (invariants and their step lemmas: `Lemmas/C03Wf.lean`, `C03Held.lean`, `C03Pipe.lean`).
+Every statement quantifies over **all reachable states** of the interleaving system `QmiModel.Pipeline.step`
+(`Reach T s`: any number of caller threads, contexts, objects, requests, any interleaving of callers, event loops,
+workers and of the removal of objects) and over every placement `T` of objects on contexts.  Nothing is bounded.
 
-* `fifo_pipeline`      for every caller `c` and object `o`: `(executed ++ cur ++ fifo ++ wire ++ ready ++ hand)|(c,o)`
-                       (oldest stage first) `= issued|(c,o)`;
-* `per_caller_order`   (+ `_started`, `_by_caller`): executions of `c`'s calls on `o` are a prefix of `c`'s issue sequence;
+* `fifo_pipeline`      for every caller `c`, proxy context `k`, object `o`:
+                       `(executed ++ cur ++ rejected ++ fifo ++ refused ++ heldL ++ wire ++ ready ++ heldC ++ hand)|(c,k,o)`
+                       (oldest stage first) `= issued|(c,k,o)`;
+* `per_route_order`    (+ `_started`): executions of `c`'s calls on `o` through `k` are a prefix of that issue sequence;
+* `per_caller_order`   the property as stated (per thread and object), for a thread that uses proxies of one context;
+* `cross_route_overtake` the hypothesis is necessary: a thread alternating between a peer proxy and a local proxy of
+                       one object can see its calls executed out of issue order (witness, replayed on the code);
+* `rejected_follow_executed`, `rejected_or_refused_not_executed`, `nothing_executes_after_leave`,
+  `no_enqueue_after_stop`: object removal keeps the executed prefix in order, answers the *next* calls with an error,
+                       never executes a call it answered with an error, and executes nothing after the worker left;
 * `no_loss_no_dup`     (+ `found_is_on_route`, `executed_at_most_once`): every issued request is in exactly one place, once;
 * `one_at_a_time`      (+ `pop_only_when_idle`, `busy_le_one`): started − completed executions on `o` ∈ {0, 1} after every
-                       prefix of every run — **structural in the model** (one `cur` slot per object), see the section comment;
+                       prefix of every run — **structural in the model** (one `cur` slot per object); that the *code* has
+                       this structure is the obligation `code_shape_single_worker` on the term generated from the source;
 * `exec_only_by_worker` (+ `single_executing_thread`, `worker_stable`, `executed_only_by_finish`): only the one thread
                        created by `start` ever executes, and only `workerFinish` extends `executed`.
 
-Assumption made explicit by the proof (`WF.ready_k`, `WF.wire_kd`): all calls of one thread to one object take the
-same route, because a thread is bound to one context (`Topo.ctxOf`).  Without it a local call could overtake an
-earlier remote call of the same thread; `enqLocal`/`enqRemote` choose the route from `T` alone.
+Waiting is not an action of the model: whether, when and in which order futures of non-blocking calls are waited for
+cannot influence the order of executions (that a future receives the reply of its own request is C01/C02's subject and
+is checked by the harness on every waited call).
 -/
 namespace QmiModel.Pipeline
-
-/-! ## helpers -/
-
-theorem upd_same {α : Type} (f : Nat → α) (k : Nat) (v : α) : upd f k v k = v := by simp [upd]
-
-theorem upd_other {α : Type} (f : Nat → α) (k j : Nat) (v : α) (h : j ≠ k) : upd f k v j = f j := by
-  simp [upd, h]
-
-/-- every place holds only requests routed through it -/
-structure WF (T : Topo) (s : State) : Prop where
-  hand_c  : ∀ c x, s.hand c = some x → x.caller = c
-  ready_k : ∀ k x, x ∈ s.ready k → T.ctxOf x.caller = k ∧ T.home x.obj ≠ k
-  wire_kd : ∀ k d x, x ∈ s.wire k d → T.ctxOf x.caller = k ∧ T.home x.obj = d ∧ d ≠ k
-  fifo_o  : ∀ o x, x ∈ s.fifo o → x.obj = o
-  cur_o   : ∀ o x, s.cur o = some x → x.obj = o
-  exec_o  : ∀ o x, x ∈ s.executed o → x.obj = o
 
 /-- the inductive invariant -/
 structure Inv (T : Topo) (s : State) : Prop where
   wf    : WF T s
+  flags : FInv s
+  held  : HInv s
   nodup : s.issued.Nodup
-  pipe  : ∀ c o, (stages T s c o).filter (sel c o) = issuedBy s c o
+  pipe  : ∀ c k o, (stages T s c k o).filter (sel c k o) = issuedBy s c k o
 
-theorem inv_init (T : Topo) : Inv T init := by
-  refine ⟨⟨?_, ?_, ?_, ?_, ?_, ?_⟩, ?_, ?_⟩ <;> simp [init, stages, issuedBy]
-
-private theorem sel_iff (c o : Nat) (x : Req) : sel c o x = true ↔ x.caller = c ∧ x.obj = o := by
-  simp [sel]
-
-private theorem sel_self (x : Req) : sel x.caller x.obj x = true := by simp [sel]
-
-private theorem filter_sel_single (c o : Nat) (x : Req) :
-    [x].filter (sel c o) = if x.caller = c ∧ x.obj = o then [x] else [] := by
-  by_cases h : x.caller = c ∧ x.obj = o
-  · simp [List.filter, (sel_iff c o x).2 h, h]
-  · have : sel c o x = false := by
-      cases hs : sel c o x
-      · rfl
-      · exact absurd ((sel_iff c o x).1 hs) h
-    simp [List.filter, this, h]
-
-theorem wf_step {T : Topo} {s s' : State} {a : Act} (h : step T s a = some s') (w : WF T s) : WF T s' := by
-  cases a with
-  | start o wk =>
-    simp only [step] at h
-    split at h
-    · simp only [Option.some.injEq] at h; subst h
-      exact ⟨w.hand_c, w.ready_k, w.wire_kd, w.fifo_o, w.cur_o, w.exec_o⟩
-    · simp at h
-  | issue c o r =>
-    simp only [step] at h
-    split at h
-    · simp only [Option.some.injEq] at h; subst h
-      refine ⟨?_, w.ready_k, w.wire_kd, w.fifo_o, w.cur_o, w.exec_o⟩
-      intro c' x hx
-      simp only [upd] at hx
-      split at hx
-      · next e => simp only [Option.some.injEq] at hx; subst hx; exact e.symm
-      · exact w.hand_c c' x hx
-    · simp at h
-  | enqLocal c =>
-    simp only [step] at h
-    split at h
-    · next x hx =>
-      split at h
-      · simp only [Option.some.injEq] at h; subst h
-        refine ⟨?_, w.ready_k, w.wire_kd, ?_, w.cur_o, w.exec_o⟩
-        · intro c' y hy
-          simp only [upd] at hy
-          split at hy
-          · simp at hy
-          · exact w.hand_c c' y hy
-        · intro o y hy
-          simp only [upd] at hy
-          split at hy
-          · next e =>
-            simp only [List.mem_append, List.mem_singleton] at hy
-            rcases hy with hy | rfl
-            · subst e; exact w.fifo_o _ y hy
-            · exact e.symm
-          · exact w.fifo_o o y hy
-      · simp at h
-    · simp at h
-  | enqRemote c =>
-    simp only [step] at h
-    split at h
-    · next x hx =>
-      split at h
-      · simp at h
-      · simp only [Option.some.injEq] at h; subst h
-        refine ⟨?_, ?_, w.wire_kd, w.fifo_o, w.cur_o, w.exec_o⟩
-        · intro c' y hy
-          simp only [upd] at hy
-          split at hy
-          · simp at hy
-          · exact w.hand_c c' y hy
-        · intro k y hy
-          simp only [upd] at hy
-          split at hy
-          · next e =>
-            simp only [List.mem_append, List.mem_singleton] at hy
-            rcases hy with hy | rfl
-            · subst e; exact w.ready_k _ y hy
-            · next hrem => rw [w.hand_c c y hx]; subst e; exact ⟨rfl, hrem⟩
-          · exact w.ready_k k y hy
-    · simp at h
-  | loopRun k =>
-    simp only [step] at h
-    split at h
-    · next x rest hx =>
-      simp only [Option.some.injEq] at h; subst h
-      have hxk := w.ready_k k x (by rw [hx]; exact List.mem_cons_self)
-      refine ⟨w.hand_c, ?_, ?_, w.fifo_o, w.cur_o, w.exec_o⟩
-      · intro k' y hy
-        simp only [upd] at hy
-        split at hy
-        · next e => subst e; exact w.ready_k _ y (by rw [hx]; exact List.mem_cons_of_mem _ hy)
-        · exact w.ready_k k' y hy
-      · intro k' d y hy
-        simp only [upd2] at hy
-        split at hy
-        · next e =>
-          obtain ⟨e1, e2⟩ := e
-          simp only [List.mem_append, List.mem_singleton] at hy
-          rcases hy with hy | rfl
-          · subst e1; subst e2; exact w.wire_kd _ _ y hy
-          · subst e1; subst e2; exact ⟨hxk.1, rfl, hxk.2⟩
-        · exact w.wire_kd k' d y hy
-    · simp at h
-  | wireDeliver k d =>
-    simp only [step] at h
-    split at h
-    · next x rest hx =>
-      simp only [Option.some.injEq] at h; subst h
-      refine ⟨w.hand_c, w.ready_k, ?_, ?_, w.cur_o, w.exec_o⟩
-      · intro k' d' y hy
-        simp only [upd2] at hy
-        split at hy
-        · next e =>
-          obtain ⟨e1, e2⟩ := e; subst e1; subst e2
-          exact w.wire_kd _ _ y (by rw [hx]; exact List.mem_cons_of_mem _ hy)
-        · exact w.wire_kd k' d' y hy
-      · intro o y hy
-        simp only [upd] at hy
-        split at hy
-        · next e =>
-          simp only [List.mem_append, List.mem_singleton] at hy
-          rcases hy with hy | rfl
-          · subst e; exact w.fifo_o _ y hy
-          · exact e.symm
-        · exact w.fifo_o o y hy
-    · simp at h
-  | workerPop wk o =>
-    simp only [step] at h
-    split at h
-    · split at h
-      · next x rest hx =>
-        simp only [Option.some.injEq] at h; subst h
-        refine ⟨w.hand_c, w.ready_k, w.wire_kd, ?_, ?_, w.exec_o⟩
-        · intro o' y hy
-          simp only [upd] at hy
-          split at hy
-          · next e => subst e; exact w.fifo_o _ y (by rw [hx]; exact List.mem_cons_of_mem _ hy)
-          · exact w.fifo_o o' y hy
-        · intro o' y hy
-          simp only [upd] at hy
-          split at hy
-          · next e =>
-            simp only [Option.some.injEq] at hy; subst hy; subst e
-            exact w.fifo_o _ x (by rw [hx]; exact List.mem_cons_self)
-          · exact w.cur_o o' y hy
-      · simp at h
-    · simp at h
-  | workerFinish wk o =>
-    simp only [step] at h
-    split at h
-    · split at h
-      · next x hx =>
-        simp only [Option.some.injEq] at h; subst h
-        refine ⟨w.hand_c, w.ready_k, w.wire_kd, w.fifo_o, ?_, ?_⟩
-        · intro o' y hy
-          simp only [upd] at hy
-          split at hy
-          · simp at hy
-          · exact w.cur_o o' y hy
-        · intro o' y hy
-          simp only [upd] at hy
-          split at hy
-          · next e =>
-            simp only [List.mem_append, List.mem_singleton] at hy
-            rcases hy with hy | rfl
-            · subst e; exact w.exec_o _ y hy
-            · subst e; exact w.cur_o _ y hx
-          · exact w.exec_o o' y hy
-      · simp at h
-    · simp at h
-
-
-theorem pipe_step {T : Topo} {s s' : State} {a : Act} (h : step T s a = some s') (w : WF T s)
-    (hp : ∀ c o, (stages T s c o).filter (sel c o) = issuedBy s c o) :
-    ∀ c o, (stages T s' c o).filter (sel c o) = issuedBy s' c o := by
-  intro c o
-  have hp' := hp c o
-  cases a with
-  | start o0 wk =>
-    simp only [step] at h
-    split at h
-    · simp only [Option.some.injEq] at h; subst h; exact hp'
-    · simp at h
-  | issue c0 o0 r0 =>
-    simp only [step] at h
-    split at h
-    · next g =>
-      simp only [Option.some.injEq] at h; subst h
-      simp only [stages, issuedBy, List.filter_append, upd] at hp' ⊢
-      by_cases hc : c = c0
-      · subst hc
-        rw [g.1] at hp'
-        simp only [if_true, Option.toList, filter_sel_single] at hp' ⊢
-        rw [← hp']; simp
-      · have hx : sel c o ⟨c0, o0, r0⟩ = false := by
-          simp [sel]; intro e; exact absurd e.symm hc
-        simp only [if_neg hc, List.filter_cons, hx, List.filter_nil, List.append_nil, Bool.false_eq_true, if_false]
-        exact hp'
-    · simp at h
-  | enqLocal c0 =>
-    simp only [step] at h
-    split at h
-    · next x hx =>
-      split at h
-      · next hloc =>
-        simp only [Option.some.injEq] at h; subst h
-        have hxc := w.hand_c c0 x hx
-        subst hxc
-        simp only [stages, issuedBy, List.filter_append, upd] at hp' ⊢
-        by_cases hs : sel c o x = true
-        · obtain ⟨rfl, rfl⟩ := (sel_iff c o x).1 hs
-          have hw : (s.wire (T.ctxOf x.caller) (T.home x.obj)).filter (sel x.caller x.obj) = [] := by
-            rw [List.filter_eq_nil_iff]; intro y hy _
-            exact (w.wire_kd _ _ y hy).2.2 hloc
-          have hr : (s.ready (T.ctxOf x.caller)).filter (sel x.caller x.obj) = [] := by
-            rw [List.filter_eq_nil_iff]; intro y hy hsy
-            have := (sel_iff _ _ y).1 hsy
-            have h2 := (w.ready_k _ y hy).2
-            rw [this.2] at h2; exact h2 hloc
-          rw [hx] at hp'
-          simp only [hw, hr, if_true, Option.toList, List.filter_cons, hs, List.filter_nil, List.append_nil] at hp' ⊢
-          rw [← hp']; simp [hs]
-        · have hs' : sel c o x = false := by simpa using hs
-          by_cases h1 : o = x.obj <;> by_cases h2 : c = x.caller
-          all_goals simp_all [sel]
-      · simp at h
-    · simp at h
-  | enqRemote c0 =>
-    simp only [step] at h
-    split at h
-    · next x hx =>
-      split at h
-      · simp at h
-      · next hrem =>
-        simp only [Option.some.injEq] at h; subst h
-        have hxc := w.hand_c c0 x hx
-        subst hxc
-        simp only [stages, issuedBy, List.filter_append, upd] at hp' ⊢
-        by_cases hs : sel c o x = true
-        · obtain ⟨rfl, rfl⟩ := (sel_iff c o x).1 hs
-          rw [hx] at hp'
-          simp only [if_true, Option.toList, List.filter_cons, hs, List.filter_nil, List.append_nil] at hp' ⊢
-          rw [← hp']; simp [hs]
-        · have hs' : sel c o x = false := by simpa using hs
-          by_cases h1 : T.ctxOf c = T.ctxOf x.caller <;> by_cases h2 : c = x.caller
-          all_goals simp_all [sel]
-    · simp at h
-  | loopRun k =>
-    simp only [step] at h
-    split at h
-    · next x rest hx =>
-      simp only [Option.some.injEq] at h; subst h
-      have hxk := (w.ready_k k x (by rw [hx]; exact List.mem_cons_self)).1
-      subst hxk
-      simp only [stages, issuedBy, List.filter_append, upd, upd2] at hp' ⊢
-      by_cases hs : sel c o x = true
-      · obtain ⟨rfl, rfl⟩ := (sel_iff c o x).1 hs
-        rw [hx] at hp'
-        simp only [if_true, and_self, List.filter_cons, hs] at hp' ⊢
-        rw [← hp']; simp [hs]
-      · have hs' : sel c o x = false := by simpa using hs
-        by_cases h1 : T.ctxOf c = T.ctxOf x.caller <;> by_cases h2 : T.home o = T.home x.obj
-        all_goals simp_all [sel]
-    · simp at h
-  | wireDeliver k d =>
-    simp only [step] at h
-    split at h
-    · next x rest hx =>
-      simp only [Option.some.injEq] at h; subst h
-      have hxk := (w.wire_kd k d x (by rw [hx]; exact List.mem_cons_self))
-      obtain ⟨hk, hd, _⟩ := hxk
-      subst hk; subst hd
-      simp only [stages, issuedBy, List.filter_append, upd, upd2] at hp' ⊢
-      by_cases hs : sel c o x = true
-      · obtain ⟨rfl, rfl⟩ := (sel_iff c o x).1 hs
-        rw [hx] at hp'
-        simp only [if_true, and_self, List.filter_cons, hs] at hp' ⊢
-        rw [← hp']; simp [hs]
-      · have hs' : sel c o x = false := by simpa using hs
-        by_cases h1 : T.ctxOf c = T.ctxOf x.caller <;> by_cases h2 : T.home o = T.home x.obj <;> by_cases h3 : o = x.obj
-        all_goals simp_all [sel]
-    · simp at h
-  | workerPop wk o0 =>
-    simp only [step] at h
-    split at h
-    · next g =>
-      split at h
-      · next x rest hx =>
-        simp only [Option.some.injEq] at h; subst h
-        have hxo := w.fifo_o o0 x (by rw [hx]; exact List.mem_cons_self)
-        subst hxo
-        simp only [stages, issuedBy, List.filter_append, upd] at hp' ⊢
-        by_cases hs : sel c o x = true
-        · obtain ⟨rfl, rfl⟩ := (sel_iff c o x).1 hs
-          rw [hx, g.2] at hp'
-          simp only [if_true, Option.toList, List.filter_cons, hs, List.filter_nil] at hp' ⊢
-          rw [← hp']; simp
-        · have hs' : sel c o x = false := by simpa using hs
-          by_cases h3 : o = x.obj
-          all_goals simp_all [sel]
-      · simp at h
-    · simp at h
-  | workerFinish wk o0 =>
-    simp only [step] at h
-    split at h
-    · split at h
-      · next x hx =>
-        simp only [Option.some.injEq] at h; subst h
-        have hxo := w.cur_o o0 x hx
-        subst hxo
-        simp only [stages, issuedBy, List.filter_append, upd] at hp' ⊢
-        by_cases hs : sel c o x = true
-        · obtain ⟨rfl, rfl⟩ := (sel_iff c o x).1 hs
-          rw [hx] at hp'
-          simp only [if_true, Option.toList, List.filter_cons, hs, List.filter_nil] at hp' ⊢
-          rw [← hp']; simp [hs]
-        · have hs' : sel c o x = false := by simpa using hs
-          by_cases h3 : o = x.obj
-          all_goals simp_all [sel]
-      · simp at h
-    · simp at h
+theorem inv_init (T : Topo) : Inv T init :=
+  ⟨wf_init T, finv_init, hinv_init, by simp [init], by intro c k o; simp [init, stages, issuedBy]⟩
 
 theorem issued_step {T : Topo} {s s' : State} {a : Act} (h : step T s a = some s') :
     s'.issued = s.issued ∨ ∃ x, x ∉ s.issued ∧ s'.issued = s.issued ++ [x] := by
   cases a <;> simp only [step] at h
-  case issue c o r =>
+  case issue c k o r =>
     split at h
-    · next g => simp only [Option.some.injEq] at h; subst h; exact Or.inr ⟨_, g.2, rfl⟩
+    · next g => simp only [Option.some.injEq] at h; subst h; exact Or.inr ⟨_, g.2.2, rfl⟩
     · simp at h
   all_goals
     repeat' split at h
@@ -384,7 +56,8 @@ theorem issued_step {T : Topo} {s s' : State} {a : Act} (h : step T s a = some s
       | (simp at h)
 
 theorem inv_step {T : Topo} {s s' : State} {a : Act} (h : step T s a = some s') (i : Inv T s) : Inv T s' := by
-  refine ⟨wf_step h i.wf, ?_, pipe_step h i.wf i.pipe⟩
+  refine ⟨wf_step h i.wf, finv_step h i.flags, hinv_step h i.wf i.flags i.held, ?_,
+    pipe_step h i.wf i.flags i.held i.pipe⟩
   rcases issued_step h with e | ⟨x, hx, e⟩
   · rw [e]; exact i.nodup
   · rw [e, List.nodup_append]
@@ -412,53 +85,89 @@ theorem reach_run {T : Topo} {s s' : State} (r : Reach T s) (as : List Act) (h :
 
 /-! ## The property theorems -/
 
-/-- **FIFO pipeline.**  In every reachable state, for every caller thread `c` and object `o`: the requests of `c`
-for `o` found in the stages `executed o, cur o, fifo o, wire, ready queue, hand of c` — concatenated **oldest
-stage first** — are exactly the calls `c` issued to `o`, in issue order.  No stage reorders, drops or duplicates. -/
-theorem fifo_pipeline {T : Topo} {s : State} (r : Reach T s) (c o : Nat) :
-    (stages T s c o).filter (sel c o) = issuedBy s c o :=
-  (inv_reach r).pipe c o
+/-- **FIFO pipeline.**  In every reachable state, for every caller thread `c`, proxy context `k` and object `o`: the
+requests of that route found in `executed o, cur o, rejected o, fifo o, refused o, the delivering loop thread, the wire,
+the ready queue, the delivering caller thread, the caller's hand` — concatenated **oldest stage first** — are exactly
+the calls `c` issued to `o` through `k`, in issue order.  No stage reorders, drops or duplicates, also while the
+object is being removed. -/
+theorem fifo_pipeline {T : Topo} {s : State} (r : Reach T s) (c k o : Nat) :
+    (stages T s c k o).filter (sel c k o) = issuedBy s c k o :=
+  (inv_reach r).pipe c k o
 
-/-- every place holds only requests that are routed through it (so `stages T s x.caller x.obj` lists *all*
-places where request `x` can be) -/
+/-- every place holds only requests that are routed through it -/
 theorem routing {T : Topo} {s : State} (r : Reach T s) : WF T s := (inv_reach r).wf
 
-/-- **Per-caller order.**  The executions on `o` of calls issued by `c` are a prefix of `c`'s issue sequence for
-`o`: they happen in issue order, without gaps — for blocking calls, for non-blocking calls that were waited for
-later, and for non-blocking calls nobody waits for (the model has no notion of waiting at all). -/
-theorem per_caller_order {T : Topo} {s : State} (r : Reach T s) (c o : Nat) :
-    (s.executed o).filter (sel c o) <+: issuedBy s c o := by
-  have h := fifo_pipeline r c o
+/-- **Per-route order.**  The executions on `o` of calls issued by thread `c` through context `k` are a prefix of that
+issue sequence: they happen in issue order, without gaps — blocking calls, non-blocking calls waited for in any order,
+and non-blocking calls nobody waits for alike (the model has no action for waiting, so no execution can depend on it);
+and this stays true while and after the object is removed. -/
+theorem per_route_order {T : Topo} {s : State} (r : Reach T s) (c k o : Nat) :
+    (s.executed o).filter (sel c k o) <+: issuedBy s c k o := by
+  have h := fifo_pipeline r c k o
   simp only [stages, List.filter_append, List.append_assoc] at h
   exact ⟨_, h⟩
 
-/-- the same for executions *started*: what was executed plus what is being executed is a prefix -/
-theorem per_caller_order_started {T : Topo} {s : State} (r : Reach T s) (c o : Nat) :
-    (s.executed o ++ (s.cur o).toList).filter (sel c o) <+: issuedBy s c o := by
-  have h := fifo_pipeline r c o
+/-- the same for executions *started* -/
+theorem per_route_order_started {T : Topo} {s : State} (r : Reach T s) (c k o : Nat) :
+    (s.executed o ++ (s.cur o).toList).filter (sel c k o) <+: issuedBy s c k o := by
+  have h := fifo_pipeline r c k o
   simp only [stages, List.filter_append, List.append_assoc] at h ⊢
   exact ⟨_, by simpa [List.append_assoc] using h⟩
 
-/-- restricted to the caller alone: everything executed on `o` is addressed to `o`, so filtering `executed o`
-by the caller gives the same list -/
-theorem per_caller_order_by_caller {T : Topo} {s : State} (r : Reach T s) (c o : Nat) :
-    (s.executed o).filter (fun x => x.caller == c) <+: issuedBy s c o := by
-  have h := per_caller_order r c o
-  have e : (s.executed o).filter (fun x => x.caller == c) = (s.executed o).filter (sel c o) := by
+/-- **Removal keeps the order.**  What `_reject_remaining_requests` answers with an error are exactly the *next* calls of
+the route after the executed ones: executed, then being executed, then rejected is still a prefix of the issue order. -/
+theorem rejected_follow_executed {T : Topo} {s : State} (r : Reach T s) (c k o : Nat) :
+    (s.executed o ++ (s.cur o).toList ++ s.rejected o).filter (sel c k o) <+: issuedBy s c k o := by
+  have h := fifo_pipeline r c k o
+  simp only [stages, List.filter_append, List.append_assoc] at h ⊢
+  exact ⟨_, by simpa [List.append_assoc] using h⟩
+
+/-- **Per-caller order** — the property as stated, under the hypothesis that thread `c` makes all its calls through
+proxies of one context `k` (the normal case: one context per process).  See `cross_route_overtake` for what
+happens without it. -/
+theorem per_caller_order {T : Topo} {s : State} (r : Reach T s) (c k o : Nat)
+    (hone : ∀ x ∈ s.issued, x.caller = c → x.via = k) :
+    (s.executed o).filter (fun x => x.caller == c) <+: s.issued.filter (fun x => x.caller == c && x.obj == o) := by
+  have h := per_route_order r c k o
+  have hsub : ∀ x ∈ s.executed o, x ∈ s.issued := by
+    intro x hx
+    have hxo := (routing r).exec_o o x hx
+    have hp := fifo_pipeline r x.caller x.via o
+    have : x ∈ (stages T s x.caller x.via o).filter (sel x.caller x.via o) := by
+      rw [List.mem_filter]
+      refine ⟨?_, by rw [← hxo]; exact sel_self x⟩
+      simp only [stages, List.mem_append]
+      exact Or.inl (Or.inl (Or.inl (Or.inl (Or.inl (Or.inl (Or.inl (Or.inl (Or.inl hx))))))))
+    rw [hp] at this
+    exact (List.mem_filter.1 this).1
+  have e1 : (s.executed o).filter (fun x => x.caller == c) = (s.executed o).filter (sel c k o) := by
     apply List.filter_congr
     intro x hx
-    have := (routing r).exec_o o x hx
-    simp [sel, this]
-  rw [e]; exact h
+    have hxo := (routing r).exec_o o x hx
+    by_cases hc : x.caller = c
+    · have := hone x (hsub x hx) hc
+      simp [sel, hc, this, hxo]
+    · have hb : (x.caller == c) = false := by simp [hc]
+      simp [sel, hb]
+  have e2 : s.issued.filter (fun x => x.caller == c && x.obj == o) = issuedBy s c k o := by
+    apply List.filter_congr
+    intro x hx
+    by_cases hc : x.caller = c
+    · have := hone x hx hc
+      simp [sel, hc, this]
+    · have hb : (x.caller == c) = false := by simp [hc]
+      simp [sel, hb]
+  rw [e1, e2]; exact h
 
-/-- **No loss, no duplication.**  Every issued request is in exactly one place, exactly once; nothing that was
-not issued is anywhere. -/
+/-- **No loss, no duplication.**  Every issued request is in exactly one place (executed, being executed, rejected at
+shutdown, queued, refused at delivery, or under way), exactly once; nothing that was not issued is anywhere. -/
 theorem no_loss_no_dup {T : Topo} {s : State} (r : Reach T s) (x : Req) :
     occurrences T s x = if x ∈ s.issued then 1 else 0 := by
-  have h := fifo_pipeline r x.caller x.obj
+  have h := fifo_pipeline r x.caller x.via x.obj
   have hn := (inv_reach r).nodup
   unfold occurrences
-  have e1 : (stages T s x.caller x.obj).count x = ((stages T s x.caller x.obj).filter (sel x.caller x.obj)).count x :=
+  have e1 : (stages T s x.caller x.via x.obj).count x
+      = ((stages T s x.caller x.via x.obj).filter (sel x.caller x.via x.obj)).count x :=
     (List.count_filter (sel_self x)).symm
   rw [e1, h, issuedBy, List.count_filter (sel_self x)]
   exact List.Nodup.count hn
@@ -466,15 +175,23 @@ theorem no_loss_no_dup {T : Topo} {s : State} (r : Reach T s) (x : Req) :
 /-- a request found in any place whatsoever is on its own route, i.e. is counted by `occurrences` -/
 theorem found_is_on_route {T : Topo} {s : State} (r : Reach T s) (x : Req) :
     (∀ c, s.hand c = some x → c = x.caller) ∧
-    (∀ k, x ∈ s.ready k → k = T.ctxOf x.caller) ∧
-    (∀ k d, x ∈ s.wire k d → k = T.ctxOf x.caller ∧ d = T.home x.obj) ∧
+    (∀ c, s.heldC c = some x → c = x.caller) ∧
+    (∀ k, x ∈ s.ready k → k = x.via) ∧
+    (∀ k d, x ∈ s.wire k d → k = x.via ∧ d = T.home x.obj) ∧
+    (∀ d, s.heldL d = some x → d = T.home x.obj) ∧
     (∀ o, x ∈ s.fifo o → o = x.obj) ∧
     (∀ o, s.cur o = some x → o = x.obj) ∧
-    (∀ o, x ∈ s.executed o → o = x.obj) := by
+    (∀ o, x ∈ s.executed o → o = x.obj) ∧
+    (∀ o, x ∈ s.rejected o → o = x.obj) ∧
+    (∀ o, x ∈ s.refused o → o = x.obj) := by
   have w := routing r
-  refine ⟨fun c h => (w.hand_c c x h).symm, fun k h => (w.ready_k k x h).1.symm,
-    fun k d h => ⟨(w.wire_kd k d x h).1.symm, (w.wire_kd k d x h).2.1.symm⟩,
-    fun o h => (w.fifo_o o x h).symm, fun o h => (w.cur_o o x h).symm, fun o h => (w.exec_o o x h).symm⟩
+  exact ⟨fun c h => (w.hand_c c x h).symm, fun c h => (w.heldC_c c x h).1.symm, fun k h => (w.ready_k k x h).1.symm,
+    fun k d h => ⟨(w.wire_kd k d x h).1.symm, (w.wire_kd k d x h).2.1.symm⟩, fun d h => (w.heldL_d d x h).1.symm,
+    fun o h => (w.fifo_o o x h).symm, fun o h => (w.cur_o o x h).symm, fun o h => (w.exec_o o x h).symm,
+    fun o h => (w.rej_o o x h).symm, fun o h => (w.ref_o o x h).symm⟩
+
+private theorem count_pos_of_mem {l : List Req} {x : Req} (h : x ∈ l) : 1 ≤ l.count x :=
+  List.count_pos_iff.2 h
 
 /-- each request is executed at most once -/
 theorem executed_at_most_once {T : Topo} {s : State} (r : Reach T s) (o : Nat) (x : Req) :
@@ -487,6 +204,133 @@ theorem executed_at_most_once {T : Topo} {s : State} (r : Reach T s) (o : Nat) (
     split at h <;> omega
   · have : x ∉ s.executed o := fun hx => ho ((routing r).exec_o o x hx).symm
     rw [List.count_eq_zero_of_not_mem this]; exact Nat.zero_le _
+
+/-- a request that was answered with an error — rejected when the worker shut down, or refused at delivery — is never
+executed, neither before nor after -/
+theorem rejected_or_refused_not_executed {T : Topo} {s : State} (r : Reach T s) (o : Nat) (x : Req)
+    (h : x ∈ s.rejected o ∨ x ∈ s.refused o) : x ∉ s.executed o ∧ s.cur o ≠ some x := by
+  have w := routing r
+  have ho : o = x.obj := by
+    rcases h with h | h
+    · exact (w.rej_o o x h).symm
+    · exact (w.ref_o o x h).symm
+  subst ho
+  have hc := no_loss_no_dup r x
+  unfold occurrences stages at hc
+  simp only [List.count_append] at hc
+  have hle : (if x ∈ s.issued then 1 else 0) ≤ 1 := by split <;> omega
+  have h1 : 1 ≤ (s.rejected x.obj).count x + (s.refused x.obj).count x := by
+    rcases h with h | h
+    · have := count_pos_of_mem h; omega
+    · have := count_pos_of_mem h; omega
+  constructor
+  · intro he
+    have := count_pos_of_mem he
+    omega
+  · intro he
+    have : 1 ≤ (s.cur x.obj).toList.count x := by rw [he]; simp
+    omega
+
+/-! ### removal -/
+
+/-- **Nothing executes after the worker has left its loop**: from then on `executed o` never changes, the worker
+holds no request, and it never comes back. -/
+theorem nothing_executes_after_leave {T : Topo} {s s' : State} {a : Act} (r : Reach T s)
+    (h : step T s a = some s') (o : Nat) (hl : s.left o = true) :
+    s'.left o = true ∧ s'.executed o = s.executed o ∧ s.cur o = none ∧ s'.cur o = none := by
+  have f := (inv_reach r).flags
+  have f' := (inv_reach (Reach.step r h)).flags
+  have hidle := f.left_idle o hl
+  have hsh := f.left_shut o hl
+  have hl' : s'.left o = true := by
+    cases a <;> simp only [step] at h
+    all_goals
+      repeat' split at h
+      all_goals first
+        | (simp only [Option.some.injEq] at h; subst h; first | exact hl | (simp only [upd]; split <;> first | rfl | exact hl))
+        | (simp at h)
+  refine ⟨hl', ?_, hidle, f'.left_idle o hl'⟩
+  cases a <;> simp only [step] at h
+  case workerFinish w0 o0 =>
+    split at h
+    · split at h
+      · next x hx =>
+        simp only [Option.some.injEq] at h; subst h
+        simp only [upd]
+        split
+        · next e => subst e; rw [hidle] at hx; simp at hx
+        · rfl
+      · simp at h
+    · simp at h
+  all_goals
+    repeat' split at h
+    all_goals first
+      | (simp only [Option.some.injEq] at h; subst h; rfl)
+      | (simp at h)
+
+/-- once the object is stopped (`_running = False`) nothing enters its fifo any more -/
+theorem no_enqueue_after_stop {T : Topo} {s s' : State} {a : Act} (h : step T s a = some s') (o : Nat)
+    (hs : s.stopped o = true) : s'.stopped o = true ∧ ∃ n, s'.fifo o = (s.fifo o).drop n := by
+  cases a <;> simp only [step] at h
+  case pushLocal c0 =>
+    split at h
+    · next x hx =>
+      split at h
+      · simp only [Option.some.injEq] at h; subst h; exact ⟨hs, 0, by simp⟩
+      · next hns =>
+        simp only [Option.some.injEq] at h; subst h
+        refine ⟨hs, 0, ?_⟩
+        simp only [upd, List.drop_zero]
+        split
+        · next e => subst e; exact absurd hs hns
+        · rfl
+    · simp at h
+  case pushWire d0 =>
+    split at h
+    · next x hx =>
+      split at h
+      · simp only [Option.some.injEq] at h; subst h; exact ⟨hs, 0, by simp⟩
+      · next hns =>
+        simp only [Option.some.injEq] at h; subst h
+        refine ⟨hs, 0, ?_⟩
+        simp only [upd, List.drop_zero]
+        split
+        · next e => subst e; exact absurd hs hns
+        · rfl
+    · simp at h
+  case workerPop w0 o0 =>
+    split at h
+    · split at h
+      · next x rest hx =>
+        simp only [Option.some.injEq] at h; subst h
+        refine ⟨hs, ?_⟩
+        simp only [upd]
+        split
+        · next e => subst e; exact ⟨1, by rw [hx]; simp⟩
+        · exact ⟨0, by simp⟩
+      · simp at h
+    · simp at h
+  case rejectOne w0 o0 =>
+    split at h
+    · split at h
+      · next x rest hx =>
+        simp only [Option.some.injEq] at h; subst h
+        refine ⟨hs, ?_⟩
+        simp only [upd]
+        split
+        · next e => subst e; exact ⟨1, by rw [hx]; simp⟩
+        · exact ⟨0, by simp⟩
+      · simp at h
+    · simp at h
+  case stopMark o0 =>
+    simp only [Option.some.injEq] at h; subst h
+    refine ⟨?_, 0, by simp⟩
+    simp only [upd]; split <;> first | rfl | exact hs
+  all_goals
+    repeat' split at h
+    all_goals first
+      | (simp only [Option.some.injEq] at h; subst h; exact ⟨hs, 0, by simp⟩)
+      | (simp at h)
 
 /-! ### one at a time
 
@@ -509,7 +353,7 @@ theorem pop_only_when_idle {T : Topo} {s s' : State} {w o : Nat} (h : step T s (
     split at h
     · next x rest hx =>
       simp only [Option.some.injEq] at h; subst h
-      exact ⟨g.1, g.2, x, by simp [upd], by simp [upd, hx]⟩
+      exact ⟨g.1, g.2.1, x, by simp [upd], by simp [upd, hx]⟩
     · simp at h
   · simp at h
 
@@ -523,7 +367,7 @@ theorem busy_step {T : Topo} {s s' : State} {a : Act} (h : step T s a = some s')
       · simp only [Option.some.injEq] at h; subst h
         simp only [isPop, isFinish, busy, upd]
         by_cases e : o0 = o
-        · subst e; simp [g.2]
+        · subst e; simp [g.2.1]
         · have : ¬ o = o0 := fun h => e h.symm
           simp [e, this]
       · simp at h
@@ -701,26 +545,25 @@ theorem executed_only_by_finish {T : Topo} {s s' : State} {a : Act} (h : step T 
       | (simp only [Option.some.injEq] at h; subst h; exact Or.inl rfl)
       | (simp at h)
 
-/-! ## Non-vacuity: concrete reachable states
+/-! ## Non-vacuity and witnesses: concrete reachable states
 
-Context 0 hosts object 0 (worker thread 9).  Caller 0 lives in context 0 (local calls); callers 1 and 2 live in
-context 1 (calls over the event loop and the wire).  The run interleaves them, leaves one request in each stage,
-and the hypotheses `Reach`/`run … = some _` of the theorems above are met by it. -/
+Context 0 hosts objects 0 and 1 (worker threads 9 and 8).  Caller 0 lives in context 0 (local calls) but also holds a
+proxy of context 1 (a peer of context 0); callers 1 and 2 live in context 1. -/
 
-def exT : Topo := { ctxOf := fun c => if c = 0 then 0 else 1, home := fun _ => 0 }
+def exT : Topo := { home := fun _ => 0 }
 
 def exRun : List Act :=
-  [.start 0 9, .issue 1 0 0, .enqRemote 1, .issue 2 0 0, .issue 0 0 0, .enqLocal 0, .enqRemote 2,
-   .issue 1 0 1, .enqRemote 1, .loopRun 1, .workerPop 9 0, .loopRun 1, .wireDeliver 1 0, .workerFinish 9 0,
-   .workerPop 9 0, .issue 0 0 1, .wireDeliver 1 0, .workerFinish 9 0, .issue 2 0 1, .enqRemote 2, .loopRun 1,
-   .issue 1 0 2, .workerPop 9 0, .enqLocal 0]
+  [.start 0 9, .issue 1 1 0 0, .enqRemote 1, .issue 2 1 0 0, .issue 0 0 0 0, .lookupLocal 0, .pushLocal 0, .enqRemote 2,
+   .issue 1 1 0 1, .enqRemote 1, .loopRun 1, .workerPop 9 0, .loopRun 1, .lookupWire 1 0, .pushWire 0, .workerFinish 9 0,
+   .workerPop 9 0, .issue 0 0 0 1, .lookupWire 1 0, .pushWire 0, .workerFinish 9 0, .issue 2 1 0 1, .enqRemote 2,
+   .loopRun 1, .issue 1 1 0 2, .workerPop 9 0, .lookupLocal 0, .pushLocal 0]
 
-example : (run exT init exRun).map (fun s => s.executed 0) = some [⟨0, 0, 0⟩, ⟨1, 0, 0⟩]
-    ∧ (run exT init exRun).map (fun s => s.cur 0) = some (some ⟨2, 0, 0⟩)
-    ∧ (run exT init exRun).map (fun s => s.fifo 0) = some [⟨0, 0, 1⟩]
-    ∧ (run exT init exRun).map (fun s => s.wire 1 0) = some [⟨1, 0, 1⟩]
-    ∧ (run exT init exRun).map (fun s => s.ready 1) = some [⟨2, 0, 1⟩]
-    ∧ (run exT init exRun).map (fun s => s.hand 1) = some (some ⟨1, 0, 2⟩) := by
+example : (run exT init exRun).map (fun s => s.executed 0) = some [⟨0, 0, 0, 0⟩, ⟨1, 1, 0, 0⟩]
+    ∧ (run exT init exRun).map (fun s => s.cur 0) = some (some ⟨2, 1, 0, 0⟩)
+    ∧ (run exT init exRun).map (fun s => s.fifo 0) = some [⟨0, 0, 0, 1⟩]
+    ∧ (run exT init exRun).map (fun s => s.wire 1 0) = some [⟨1, 1, 0, 1⟩]
+    ∧ (run exT init exRun).map (fun s => s.ready 1) = some [⟨2, 1, 0, 1⟩]
+    ∧ (run exT init exRun).map (fun s => s.hand 1) = some (some ⟨1, 1, 0, 2⟩) := by
   decide
 
 example : ∃ s, run exT init exRun = some s ∧ Reach exT s ∧ s.execBy 0 = [9, 9] ∧ pops 0 exRun = 3
@@ -732,12 +575,65 @@ example : ∃ s, run exT init exRun = some s ∧ Reach exT s ∧ s.execBy 0 = [9
     have : (run exT init exRun).map (fun s => s.execBy 0) = some [9, 9] := by decide
     rw [h] at this; simpa using this
 
+/-- removal in the middle of the traffic: one request executed, one rejected by the leaving worker, one refused
+because the object is stopped when the loop thread pushes it, one refused at the handler lookup, one still queued
+on the event loop of its context -/
+def exStop : List Act :=
+  exRun ++ [.lookupWire 1 0, .unregister 0, .workerFinish 9 0, .stopMark 0, .pushWire 0, .shutdownReq 0,
+            .workerLeave 9 0, .rejectOne 9 0, .loopRun 1, .lookupWire 1 0, .enqRemote 1]
+
+example : (run exT init exStop).map (fun s => s.executed 0) = some [⟨0, 0, 0, 0⟩, ⟨1, 1, 0, 0⟩, ⟨2, 1, 0, 0⟩]
+    ∧ (run exT init exStop).map (fun s => s.rejected 0) = some [⟨0, 0, 0, 1⟩]
+    ∧ (run exT init exStop).map (fun s => s.refused 0) = some [⟨1, 1, 0, 1⟩, ⟨2, 1, 0, 1⟩]
+    ∧ (run exT init exStop).map (fun s => s.ready 1) = some [⟨1, 1, 0, 2⟩]
+    ∧ (run exT init exStop).map (fun s => s.left 0) = some true := by
+  decide
+
 /-- disabled actions: a second `start`, a pop while busy, a pop by a thread that is not the worker, an issue while
-the previous call of the same thread is still in hand, a local enqueue of a remote call -/
+the previous call of the same thread is still in hand, a local delivery of a remote call, a pop after the shutdown
+request, an execution after the worker left, a shutdown request before `_running = False` -/
 example : (run exT init (exRun ++ [.start 0 8])).isNone ∧ (run exT init (exRun ++ [.workerPop 9 0])).isNone
-    ∧ (run exT init [.start 0 9, .issue 0 0 0, .enqLocal 0, .workerPop 8 0]).isNone
-    ∧ (run exT init [.issue 1 0 0, .issue 1 0 1]).isNone
-    ∧ (run exT init [.issue 1 0 0, .enqLocal 1]).isNone := by
+    ∧ (run exT init [.start 0 9, .issue 0 0 0 0, .lookupLocal 0, .pushLocal 0, .workerPop 8 0]).isNone
+    ∧ (run exT init [.issue 1 1 0 0, .issue 1 1 0 1]).isNone
+    ∧ (run exT init [.issue 1 1 0 0, .lookupLocal 1]).isNone
+    ∧ (run exT init [.start 0 9, .issue 0 0 0 0, .lookupLocal 0, .pushLocal 0, .stopMark 0, .shutdownReq 0,
+                     .workerPop 9 0]).isNone
+    ∧ (run exT init (exStop ++ [.workerPop 9 0])).isNone
+    ∧ (run exT init [.start 0 9, .shutdownReq 0]).isNone := by
+  decide
+
+/-- **Across routes the order is NOT guaranteed** (negation witness for the property read literally, without the
+hypothesis of `per_caller_order`): thread 0 issues call #0 to object 0 through its proxy of peer context 1 and then
+call #1 to the same object through its proxy of the object's own context 0; the local call is enqueued by the caller's
+own thread while the first one still sits in the event-loop queue of context 1, and is executed first.  The harness
+replays this history on the real code (known finding `order-across-routes`). -/
+theorem cross_route_overtake :
+    ∃ s, run exT init [.start 0 9, .issue 0 1 0 0, .enqRemote 0, .issue 0 0 0 1, .lookupLocal 0, .pushLocal 0,
+                       .workerPop 9 0, .workerFinish 9 0, .loopRun 1, .lookupWire 1 0, .pushWire 0, .workerPop 9 0,
+                       .workerFinish 9 0] = some s
+      ∧ s.issued = [⟨0, 1, 0, 0⟩, ⟨0, 0, 0, 1⟩] ∧ s.executed 0 = [⟨0, 0, 0, 1⟩, ⟨0, 1, 0, 0⟩] := by
+  cases h : run exT init [.start 0 9, .issue 0 1 0 0, .enqRemote 0, .issue 0 0 0 1, .lookupLocal 0, .pushLocal 0,
+                       .workerPop 9 0, .workerFinish 9 0, .loopRun 1, .lookupWire 1 0, .pushWire 0, .workerPop 9 0,
+                       .workerFinish 9 0] with
+  | none => exact absurd h (by decide)
+  | some s =>
+    refine ⟨s, rfl, ?_, ?_⟩
+    · have : (run exT init [.start 0 9, .issue 0 1 0 0, .enqRemote 0, .issue 0 0 0 1, .lookupLocal 0, .pushLocal 0,
+                       .workerPop 9 0, .workerFinish 9 0, .loopRun 1, .lookupWire 1 0, .pushWire 0, .workerPop 9 0,
+                       .workerFinish 9 0]).map (fun s => s.issued) = some [⟨0, 1, 0, 0⟩, ⟨0, 0, 0, 1⟩] := by decide
+      rw [h] at this; simpa using this
+    · have : (run exT init [.start 0 9, .issue 0 1 0 0, .enqRemote 0, .issue 0 0 0 1, .lookupLocal 0, .pushLocal 0,
+                       .workerPop 9 0, .workerFinish 9 0, .loopRun 1, .lookupWire 1 0, .pushWire 0, .workerPop 9 0,
+                       .workerFinish 9 0]).map (fun s => s.executed 0) = some [⟨0, 0, 0, 1⟩, ⟨0, 1, 0, 0⟩] := by decide
+      rw [h] at this; simpa using this
+
+/-- **No constraint across objects**: one thread issues a call to object 0 and then a call to object 1; both execution
+orders are reachable (each object has its own worker), while the order *per object* is fixed by `per_route_order`. -/
+example :
+    (run exT init [.start 0 9, .start 1 8, .issue 0 0 0 0, .lookupLocal 0, .pushLocal 0, .issue 0 0 1 0, .lookupLocal 0,
+                   .pushLocal 0, .workerPop 9 0, .workerFinish 9 0, .workerPop 8 1, .workerFinish 8 1]).isSome
+    ∧ (run exT init [.start 0 9, .start 1 8, .issue 0 0 0 0, .lookupLocal 0, .pushLocal 0, .issue 0 0 1 0, .lookupLocal 0,
+                   .pushLocal 0, .workerPop 8 1, .workerFinish 8 1, .workerPop 9 0, .workerFinish 9 0]).isSome := by
   decide
 
 end QmiModel.Pipeline
